@@ -325,6 +325,16 @@ CHECK_DEADLOCK FALSE
             ev.append({"op": "keys", "same": o2[0] == "ok" and (cl2.aes_rand, cl2.aes_key, cl2.hmac_key) == (cl.aes_rand, cl.aes_key, cl.hmac_key),
                        "aes": L(cl.aes_key), "hmac": L(cl.hmac_key), "digest": L(dg), "md_rand": wire_rand(cl), "aes_rand": L(cl.aes_rand),
                        "md_bid": limbs(int(cl.metadata.bid)), "id": e["id"]})
+        if o[0] == "ok":
+            # ... whichever of the optional arguments of run() are given (none; some; others)
+            for kw_ in ({}, {"user": "u"}, {"internal_ip": "10.0.0.1", "arch": "x64"}, {"computer": "c", "process": "p", "pid": 77}):
+                cl4, o4 = setup(128, beacon_id=rid, **kw_)
+                ctx.evaluations += 1
+                if o4[0] == "ok":
+                    dg = hashlib.sha256(cl4.aes_rand).digest()
+                    ev.append({"op": "keys", "same": (cl4.aes_rand, cl4.aes_key, cl4.hmac_key) == (cl.aes_rand, cl.aes_key, cl.hmac_key),
+                               "aes": L(cl4.aes_key), "hmac": L(cl4.hmac_key), "digest": L(dg), "md_rand": wire_rand(cl4), "aes_rand": L(cl4.aes_rand),
+                               "md_bid": limbs(int(cl4.metadata.bid)), "id": limbs(cl4.beacon_id) if 0 <= cl4.beacon_id < 2**32 else [65535, 65535]})
         ev.append(e)
         ctx.count_distinct(("id", rid))
         if o[0] == "ok" and 0 <= rid < 2**31 - 1:
